@@ -1342,13 +1342,32 @@ class OEvaluator(Evaluator):
                 except TypeError:
                     raise PyRaise("TypeError")
         f = None
-        try:
-            if isinstance(fn, ast.Name) and fn.id not in self.env and ("builtins." + fn.id) in self.oe.externals:
-                f = self.free_name(fn.id)
-            else:
-                f = self.ev(fn) if not (isinstance(fn, ast.Name) and fn.id in ("max", "min", "any", "all", "sum", "list", "tuple", "enumerate", "ord", "chr", "bool", "range", "zip", "dict", "set", "print", "id")) else None
-        except Unsupported:
-            f = None
+        if isinstance(fn, ast.Attribute):
+            # `<receiver>.<name>(...)`: the receiver expression is evaluated ONCE, whatever path decides the call afterwards
+            # (a receiver like `Pickled.load(file)` moves a stream every time it is evaluated)
+            try:
+                recv = self.ev(fn.value)
+            except Unsupported:
+                return _MISSING
+            lit = ast.copy_location(ast.Attribute(value=_Lit(recv), attr=fn.attr, ctx=ast.Load()), fn)
+            try:
+                f = self.getattr(recv, fn.attr)
+            except Unsupported:
+                f = None
+            if f is not None and not getattr(f, "sa_callable", False):
+                if f is None or isinstance(f, (PyIter, list, tuple, dict, set, frozenset, str, bytes, bytearray, int, float)) and not isinstance(f, Record):
+                    self.ev_args(e)  # arguments are evaluated before the call fails
+                    raise PyRaise("TypeError")  # the attribute's value is not callable
+            if not (f is not None and getattr(f, "sa_callable", False)):
+                return super().ev(ast.copy_location(ast.Call(func=lit, args=e.args, keywords=e.keywords), e))
+        else:
+            try:
+                if isinstance(fn, ast.Name) and fn.id not in self.env and ("builtins." + fn.id) in self.oe.externals:
+                    f = self.free_name(fn.id)
+                else:
+                    f = self.ev(fn) if not (isinstance(fn, ast.Name) and fn.id in ("max", "min", "any", "all", "sum", "list", "tuple", "enumerate", "ord", "chr", "bool", "range", "zip", "dict", "set", "print", "id")) else None
+            except Unsupported:
+                f = None
         if f is not None and getattr(f, "sa_callable", False):
             args = self.ev_args(e)
             kw = {}
